@@ -487,6 +487,10 @@ impl World {
     pub fn client_poll(&self, conn: usize) -> u32 {
         self.ep_poll(conn, false)
     }
+    /// would the server-side endpoint of this connection be reported writable (EPOLLOUT)?
+    pub fn client_poll_peer_writable(&self, conn: usize) -> bool {
+        self.ep_poll(conn, true) & EPOLLOUT != 0
+    }
     /// free space in the client -> server direction
     pub fn c2s_free(&self, conn: usize) -> usize {
         let c = &self.conns[conn];
